@@ -49,6 +49,20 @@ func (els *EncryptedLeaseSet) Verify() error {
 // present, otherwise constructs a key from sigType + blindedPublicKey.
 func (els *EncryptedLeaseSet) signingPublicKeyForVerification() (types.SigningPublicKey, error) {
 	if els.HasOfflineKeys() && els.offlineSignature != nil {
+		// The transient key may only stand in for the blinded key if the blinded
+		// key signed the offline block (expires, sigtype, key).
+		blindedKey, err := key_certificate.ConstructSigningPublicKeyByType(
+			els.blindedPublicKey, int(els.sigType))
+		if err != nil {
+			return nil, oops.Errorf("failed to construct blinded signing public key: %w", err)
+		}
+		blindedVerifier, err := blindedKey.NewVerifier()
+		if err != nil {
+			return nil, oops.Errorf("failed to create verifier for offline signature: %w", err)
+		}
+		if err := blindedVerifier.Verify(els.offlineSignature.SignedData(), els.offlineSignature.Signature()); err != nil {
+			return nil, oops.Errorf("offline signature is not signed by the blinded key: %w", err)
+		}
 		transientKeyBytes := els.offlineSignature.TransientPublicKey()
 		transientSigType := els.offlineSignature.TransientSigType()
 		spk, err := key_certificate.ConstructSigningPublicKeyByType(
